@@ -1,19 +1,72 @@
 import IpcHub.Drv.Util
-import IpcHub.Spec.PatternLang
+import IpcHub.Spec.PatternDoc
 import IpcHub.Model.PathMatchInst
 namespace IpcHub.Drv.C16
-open IpcHub.PathMatch IpcHub.PatternLang IpcHub.Drv
+open IpcHub.PathMatch IpcHub.PatternDoc IpcHub.Drv
 
-def cfg : Cfg := genCfg
+/-- the model of the current source tree with Go's character functions -/
+def cfg : Cfg := goCfg
 
-/-- `permit <right-hex> <admin 0|1> <path-hex>` → `model=<b> spec=<b>` -/
+/-- hex of a UTF-8 byte string → characters; `none` when the bytes are not valid UTF-8 -/
+def hexToUtf8Chars (s : String) : Option (List Char) :=
+  match hexToBytes s with
+  | none => none
+  | some bs => (String.fromUTF8? (ByteArray.mk bs.toArray)).map String.toList
+
+def charsToUtf8Hex (cs : List Char) : String :=
+  bytesToHex (String.ofList cs).toUTF8.data.toList
+
+/-- the specification: with its own Unicode tables when every character is in the covered class
+    (`c16_equiv_covered`), else read with Go's functions (`c16_equiv`) -/
+def specFor (allCov : Bool) (right : List Char) (admin : Bool) (path : List Char) : Bool :=
+  if allCov then permits uLower uSpace right admin path
+  else permits IpcHub.GoUnicode.toLower IpcHub.GoUnicode.isSpace right admin path
+
+def needOf : String → Option AccessRight
+  | "pull" => some .pull
+  | "push" => some .push
+  | "other" => some .other
+  | _ => none
+
+/--
+* `permit <right-hex> <admin 0|1> <path-hex>` → `model=<b> spec=<b> cov=<b>` (strings are UTF-8)
+* `perm2 <pull-hex> <push-hex> <admin> <pull|push|other> <path-hex>` → same, user level
+* `lowermap <utf8-hex>` → `out=<utf8-hex>` the model's `unicode.ToLower` applied to every character,
+  `spec=<utf8-hex>` the specification's mapping, `cov=<0/1 per character>`
+* `spacemap <utf8-hex>` → `out=<0/1 per character>` the model's `unicode.IsSpace`, `spec=` the spec's
+-/
 def handle : List String → String
   | ["permit", r, a, p] =>
-    match hexToChars r, hexToChars p with
+    match hexToUtf8Chars r, hexToUtf8Chars p with
     | some r, some p =>
       let admin := a = "1"
-      s!"model={boolStr (implPermits cfg r admin p)} spec={boolStr (specPermits asciiLower asciiSpace r admin p)}"
-    | _, _ => "bad-op"
+      let cov := r.all covered && p.all covered
+      s!"model={boolStr (implPermits cfg r admin p)} spec={boolStr (specFor cov r admin p)} cov={boolStr cov}"
+    | _, _ => "invalid-utf8"
+  | ["perm2", pl, ps, a, need, p] =>
+    match hexToUtf8Chars pl, hexToUtf8Chars ps, hexToUtf8Chars p, needOf need with
+    | some pl, some ps, some p, some nd =>
+      let admin := a = "1"
+      let cov := pl.all covered && ps.all covered && p.all covered
+      let model := implValidate cfg ⟨admin, pl, ps⟩ p nd
+      let spec := match nd with
+        | .pull => specFor cov pl admin p
+        | .push => specFor cov ps admin p
+        | .other => false
+      s!"model={boolStr model} spec={boolStr spec} cov={boolStr cov}"
+    | _, _, _, _ => "invalid-utf8"
+  | ["lowermap", s] =>
+    match hexToUtf8Chars s with
+    | some cs =>
+      let covs := String.ofList (cs.map (fun c => if covered c then '1' else '0'))
+      s!"out={charsToUtf8Hex (cs.map IpcHub.GoUnicode.toLower)} spec={charsToUtf8Hex (cs.map uLower)} cov={covs}"
+    | none => "invalid-utf8"
+  | ["spacemap", s] =>
+    match hexToUtf8Chars s with
+    | some cs =>
+      let f := fun (g : Char → Bool) => String.ofList (cs.map (fun c => if g c then '1' else '0'))
+      s!"out={f IpcHub.GoUnicode.isSpace} spec={f uSpace}"
+    | none => "invalid-utf8"
   | _ => "bad-op"
 
 end IpcHub.Drv.C16
